@@ -1,4 +1,6 @@
 """Stage-wise correspondence (S) and certificate oracles (O) over a batch of grammars."""
+import json
+
 from . import core
 
 
@@ -101,6 +103,13 @@ def analyse(cases, want_model=True):
         if a.wmin is not None:
             reqs.append(f"equiv {a.wraw} {a.wmin}"); plan.append((a, "main:raw~min", None))
             reqs.append(f"minimal {a.wmin}"); plan.append((a, "main:minimal", None))
+        # the pool the scripts are written from holds exactly the minimised within-word automata
+        if rec.get("subpairs") is not None and all("min" in p for p in rec["subpairs"]):
+            pool = {json.dumps(s, sort_keys=True) for s in rec["subdfas"]}
+            mins = {json.dumps(p["min"], sort_keys=True) for p in rec["subpairs"]}
+            if pool != mins:
+                a.oracle.append(("sub:pool", f"differ: {len(pool - mins)} pool entries are not the minimised automaton of any within-word "
+                                             f"expression, {len(mins - pool)} minimised automata are not in the pool"))
         for k, pair in enumerate(rec.get("subpairs", [])):
             if "raw" in pair:
                 reqs.append(f"equiv {wire(pair['raw'])} {wire(pair['min'])}"); plan.append((a, f"sub{k}:raw~min", None))
